@@ -15,6 +15,8 @@ import (
 	"unicode/utf8"
 	"errors"
 	"fmt"
+	"iter"
+	"maps"
 	"slices"
 	"sort"
 	"strconv"
@@ -260,8 +262,65 @@ func H_STD() {
 		l.PushBack(1)
 		l.PushFront(0)
 		vx.Assert("STD", l.Len() == 2 && l.Front().Value.(int) == 0, "container/list")
+	case 8: // iterators (range over func), maps / slices helpers built on them, generic containers
+		m := map[string]int{"b": 2, "a": 1, "c": 3}
+		keys := slices.Sorted(maps.Keys(m))
+		vx.Assert("STD", len(keys) == 3 && keys[0] == "a" && keys[2] == "c", "slices.Sorted(maps.Keys)")
+		tot := 0
+		countTo(4)(func(_, v int) bool { // the module's language version (go 1.22) has no range-over-func statement
+			if v == 3 {
+				return false
+			}
+			tot += v
+			return true
+		})
+		vx.Assert("STD", tot == 0+1+2, "iterator function called directly")
+		vals := slices.Collect(maps.Values(m))
+		slices.Sort(vals)
+		vx.Assert("STD", len(vals) == 3 && vals[0] == 1, "slices.Collect(maps.Values)")
+		for i := range 3 {
+			tot += i
+		}
+		vx.Assert("STD", tot == 6, "range over int")
+		st := stack[string]{}
+		st.push("x")
+		st.push("y")
+		top, ok := st.pop()
+		vx.Assert("STD", ok && top == "y" && len(st.items) == 1, "generic type")
+		c2 := maps.Clone(m)
+		delete(c2, "a")
+		vx.Assert("STD", len(m) == 3 && len(c2) == 2, "maps.Clone")
+		idx, found := slices.BinarySearch(keys, "b")
+		vx.Assert("STD", found && idx == 1, "slices.BinarySearch")
+		vx.Assert("STD", slices.Equal(keys, []string{"a", "b", "c"}) && slices.Max(vals) == 3, "slices.Equal/Max")
+		n := 0
+		slices.Chunk([]int{1, 2, 3}, 2)(func(c []int) bool { n += len(c); return true })
+		vx.Assert("STD", n == 3, "slices.Chunk")
 	}
 	vx.Cover("std-done")
+}
+
+func countTo(n int) iter.Seq2[int, int] {
+	return func(yield func(int, int) bool) {
+		for i := 0; i < n; i++ {
+			if !yield(i, i) {
+				return
+			}
+		}
+	}
+}
+
+type stack[T any] struct{ items []T }
+
+func (s *stack[T]) push(v T) { s.items = append(s.items, v) }
+func (s *stack[T]) pop() (T, bool) {
+	var zero T
+	if len(s.items) == 0 {
+		return zero, false
+	}
+	v := s.items[len(s.items)-1]
+	s.items = s.items[:len(s.items)-1]
+	return v, true
 }
 
 type sq struct{ s int }
